@@ -80,6 +80,34 @@ def run(ctx):
     ctx.obligation("whole tool on corpus/c13 (%d tagged dereferences: same-named methods / functions with same-named locals, interleaved sources): every ungrouped location appears once, only findings with the same nil source share a diagnostic" % len(tags), bool(tags) and not gbad)
     for b in gbad[:2]:
         ctx.violation("grouping", "C13 fails on the real tool: %s\nreplay: bin/harness analyze -dir corpus/c13 [-flag group-error-messages=false]\n" % b)
+    # known finding F78: the standalone driver filters by file AFTER grouping (corpus/c13kf: three dereferences of one
+    # nil source in three files; excluding the head's file loses the whole group)
+    import re as _re
+    kfd = os.path.join(common.VERIF, "corpus", "c13kf")
+
+    def driver_locations(grouping, excl):
+        env = dict(common.GOENV)
+        env["NO_COLOR"] = "1"
+        rc, out, err = common.sh2([os.path.join(common.BIN, "nilaway"), "-pretty-print=false", "-group-error-messages=%s" % grouping,
+                                   "-exclude-errors-in-files", os.path.join(kfd, excl), "./..."], cwd=kfd, env=env, timeout=600)
+        text = err + "\n" + out
+        locs = set(_re.findall(r"^/[^\n:]*/(\w+\.go):(\d+):\d+: Potential nil panic", text, flags=_re.M))
+        for lst in _re.findall(r"other place\(s\): (.*)\.\)", text):
+            locs |= set((os.path.basename(a), b) for a, b in _re.findall(r"\"([^\"]+\.go):(\d+):\d+\"", lst))
+        return locs
+    f78 = [k for k in ctx.known_for() if k["id"] == "F78"]
+    f78bad = []
+    for excl in ("b_gen.go", "c_main.go"):
+        off, on = driver_locations("false", excl), driver_locations("true", excl)
+        if off != on:
+            f78bad.append("with -exclude-errors-in-files %s the standalone driver shows %s with grouping off and %s with grouping on" % (excl, sorted(off), sorted(on)))
+    if f78bad:
+        if f78:
+            ctx.known_finding("F78", "%s -- %s (corpus/c13kf)" % (f78[0]["what"][:150], f78bad[0][:200]))
+        else:
+            for b in f78bad[:2]:
+                ctx.violation("driver-filter", "C13 fails on the real tool: %s\nreplay: cd corpus/c13kf && bin/nilaway -pretty-print=false -group-error-messages=true|false -exclude-errors-in-files $PWD/<file> ./...\n" % b)
+    ctx.obligation("standalone driver on corpus/c13kf with a file excluded: grouping on shows what grouping off shows (known finding F78 otherwise)", not f78bad or bool(f78))
     n = 3000 if ctx.tier == "quick" else 80000
     res = ds.correspond(ctx, n)
     ctx.obligation("correspondence suite ran", not res["errors"])
